@@ -38,7 +38,7 @@ OBS_RE = re.compile(r'<<(\d+), "(\w+)">>')
 KEYS = ["ssh", "csh", "scl", "ccl"]
 MODES = ["default", "lcm", "routing"]
 LIMIT_K = 281000          # counters in units of 1024 (4 KiB): ~1.15 GB
-FOLLOW_BOUND_MS = 3000
+FOLLOW_BOUND_MS = 8000
 
 BOUNDARY = [-2 ** 31, -1, 0, 1, 1023, 1024, 1025, 2 ** 27, 238609293, 238609294, 2 ** 30, 2 ** 31 - 2, 2 ** 31 - 1,
             2 ** 32, 2 ** 32 + 5, 2 ** 32 + 238609294, 2 ** 33 - 1, -2 ** 31 - 1, 2 ** 63 - 1, -2 ** 63]
